@@ -186,7 +186,8 @@ class Gen:
         r = self.r
         e = r.choice(['x', 'X', 'dd', 'dd', 'dw', 'D', 'd$', 'db', 'dj', 'dk', 'dG', 'dH', 'dL', 'd}', 'p', 'P', 'p', 'P', 'yy', 'yw', 'Y', 'yj', 'J', 'J',
                       'rZ', '~', '>>', '<<', '.', '.', 'ma', '"ayy', '"ap', '"aP', 'g~w', 'gUU', 'yG', 'y$', '>j', '<k',
-                      'yb', 'y0', 'y^', 'yFa', 'yTe', 'y?a\n', 'yB', 'yh', 'yk', 'y1G'])
+                      'yb', 'y0', 'y^', 'yFa', 'yTe', 'y?a\n', 'yB', 'yh', 'yk', 'y1G',
+                      'g~k', 'gUk', '>k', '<k', '>-', '<1G', 'g~j', '>}', 'guH', 'yH', 'y-', '>L'])
         if e in ('x', 'dd', 'J', 'p', 'P', 'yy', '>>', '<<', 'X', '~', 'dw', '.'):
             return self.count() + e.encode()
         return e.encode()
@@ -312,7 +313,7 @@ def gen_aimed(rng, quick, k):
     rows = rng.choice([3, 4, 5, 6, 8, 10])
     cols = rng.choice([8, 10, 20, 20, 40])
     h = rows - 1
-    shape = ['top-O', 'bot-o', 'mid-i', 'ai', 'bot-J', 'put', 'bot-dd', 'horiz', 'horiz', 'scrollmix', 'scrollmix', 'bot-o', 'put'][k % 13]
+    shape = ['top-O', 'bot-o', 'mid-i', 'ai', 'bot-J', 'put', 'bot-dd', 'horiz', 'horiz', 'scrollmix', 'scrollmix', 'bot-o', 'top-back'][k % 13]
     n = rng.choice([h, h + 1, 2 * h + 1, 3 * h + 2, 4 * h + 1])
     style = 'plain' if shape not in ('horiz',) else 'mixed'
     lines = gen_lines(rng, n, cols, style)
@@ -353,6 +354,15 @@ def gen_aimed(rng, quick, k):
         A += [e('%dG' % rng.range(1, n)), reg + e('%dyy' % m)]
         A += rng.choice([to_top(), to_bot()]) + [reg + rng.choice([b'p', b'P'])] + undo3()
         A += rng.choice([to_top(), to_bot()]) + [reg + rng.choice([b'2p', b'P', b'p', b'3P'])] + undo3() + [g.scroll(), reg + b'p', b'u']
+    elif shape == 'top-back':
+        # an operator whose backward line motion starts on the first row of a scrolled window: the change begins above the window
+        back = lambda: rng.choice([b'k', b'-', b'2k', b'1G', b'{', b'H', e('%dk' % h)])
+        for _ in range(2):
+            A += to_top() + [rng.choice([b'g~', b'gU', b'gu', b'>', b'<', b'd', b'y', b'c']) + back()]
+            if A[-1][:1] == b'c':
+                A[-1] += g.text() + ESC
+            A += undo3()
+        A += to_bot() + [rng.choice([b'g~', b'>', b'<', b'd', b'y']) + rng.choice([b'j', b'+', b'2j', b'G', b'}', b'L'])] + undo3()
     elif shape == 'bot-dd':
         A += to_bot() + [rng.choice([b'dd', b'2dd', b'dk', b'dG', b'dj', e('%ddd' % h)])] + undo3() + [b'.', g.scroll()] + to_bot() + [b'dd', b'.', b'u', b'u']
     elif shape == 'horiz':
@@ -1027,6 +1037,16 @@ def classify(case, pr, r, prev):
     """narrow classifiers of the findings recorded in KNOWN_FINDINGS.txt; None = not a known root cause.  No open finding at
     present: the earlier ones (yank columns, empty change, sticky left, failed ex command, hll after deleting through the last
     line, insert mode leaving another xleft) are repaired in /repo; their inputs are corpus cases that must pass."""
+    if pr[0] != 'cmd' or pr[1] == 0 or r.get('status') != 'fail' or not prev or prev.get('top') is None:
+        return None
+    b = bytes.fromhex(case['atoms'][pr[1] - 1]).lstrip(DIGITS)
+    # KF-DRAWFIX-ABOVE: a case/shift operator (same number of lines) whose region starts above the window: vi_drawfix clamps r1
+    # but not n, inserts xtop - r1 lines at row 0 and redraws only n rows
+    op = b[:2] if b[:1] == b'g' else b[:1]
+    if op in (b'g~', b'gu', b'gU', b'>', b'<') and 'the text rows are not a window of the buffer lines' in r['what']:
+        mot = b[len(op):].lstrip(DIGITS)
+        if mot[:1] in (b'k', b'-', b'G', b'{', b'H', b'?') and prev['top'] > 0 and prev.get('xrow') == prev['top'] and r['xrow'] <= prev['xrow']:
+            return 'KF-DRAWFIX-ABOVE'
     return None
 
 
